@@ -1,4 +1,207 @@
-use crate::core::{Ctx, Outcome};
-use serde_json::Value;
-pub fn run(_ctx: &Ctx) -> Outcome { unimplemented!() }
-pub fn replay(_ctx: &Ctx, _r: &Value) -> i32 { 2 }
+//! C04 — extraction never writes outside the download directory.
+//! E-ENUM over name / path strings built from a small component alphabet (including "..", ".",
+//! empty components and absolute paths pointing at a canary directory); oracle = recursive listing
+//! of a disposable root that contains the download directory eight levels down.
+
+use crate::core::{self, Ctx, Outcome};
+use crate::fixture::Torrent;
+use crate::httpfake;
+use serde_json::{json, Value};
+use std::collections::BTreeSet;
+use std::path::{Path, PathBuf};
+
+const COMPONENTS: [&str; 5] = ["a", "b", "..", ".", ""];
+const NEST: &str = "l1/l2/l3/l4/l5/l6/l7/l8";
+
+#[derive(Clone, Debug)]
+pub struct Case {
+    pub name: String,
+    /// None = single-file torrent; Some(path) = multi-file torrent whose first file has this path.
+    pub path: Option<String>,
+}
+
+fn strings(max_components: usize, abs_prefix: &str) -> Vec<String> {
+    let mut rel: Vec<String> = vec![];
+    let mut level: Vec<Vec<&str>> = vec![vec![]];
+    for _ in 0..max_components {
+        let mut next = vec![];
+        for prefix in &level {
+            for c in COMPONENTS {
+                let mut v = prefix.clone();
+                v.push(c);
+                rel.push(v.join("/"));
+                next.push(v);
+            }
+        }
+        level = next;
+    }
+    rel.sort();
+    rel.dedup();
+    let mut out = rel.clone();
+    for r in &rel {
+        // absolute: pointing into the canary directory (a bare leading '/' would aim at the real
+        // filesystem root, which a check must not litter)
+        out.push(format!("{}/{}", abs_prefix, r));
+    }
+    out.sort();
+    out.dedup();
+    out
+}
+
+fn listing(root: &Path) -> BTreeSet<PathBuf> {
+    fn walk(dir: &Path, out: &mut BTreeSet<PathBuf>) {
+        if let Ok(rd) = std::fs::read_dir(dir) {
+            for e in rd.flatten() {
+                let p = e.path();
+                out.insert(p.clone());
+                if p.is_dir() && !p.is_symlink() {
+                    walk(&p, out);
+                }
+            }
+        }
+    }
+    let mut out = BTreeSet::new();
+    walk(root, &mut out);
+    out
+}
+
+pub struct Env {
+    pub rt: tokio::runtime::Runtime,
+    pub root: PathBuf,
+    pub cwd: PathBuf,
+    pub canary: PathBuf,
+}
+
+pub fn env(worker: &str) -> Env {
+    let cwd = core::private_cwd("c04", &format!("{}/{}", worker, NEST));
+    let root = core::scratch_root().join("c04").join(worker);
+    let canary = root.join("c1/c2/c3/c4/c5/canary");
+    Env { rt: httpfake::runtime(), root, cwd, canary }
+}
+
+fn reset(env: &Env) {
+    // wipe everything under root except the chain of nest directories
+    core::wipe_dir(&env.cwd);
+    let mut d = env.cwd.clone();
+    while d != env.root {
+        let parent = d.parent().unwrap().to_path_buf();
+        if let Ok(rd) = std::fs::read_dir(&parent) {
+            for e in rd.flatten() {
+                if e.path() != d {
+                    if e.path().is_dir() {
+                        let _ = std::fs::remove_dir_all(e.path());
+                    } else {
+                        let _ = std::fs::remove_file(e.path());
+                    }
+                }
+            }
+        }
+        d = parent;
+    }
+    std::fs::create_dir_all(&env.canary).unwrap();
+}
+
+pub fn check_case(env: &Env, c: &Case) -> Option<(&'static str, String)> {
+    reset(env);
+    let t = match &c.path {
+        None => Torrent::new(&c.name, 4, &[("ignored", 3)], true),
+        Some(p) => Torrent::new(&c.name, 4, &[(p.as_str(), 2), ("ok", 1)], false),
+    };
+    t.store_piece(&env.cwd, 0);
+    let before = listing(&env.root);
+    let res = crate::c03::run_extractor(&env.rt, &t);
+    let after = listing(&env.root);
+    if let Err(p) = res {
+        return Some(("extractor-panic", format!("{:?}: {}", c, p)));
+    }
+    let created: Vec<PathBuf> = after.difference(&before).cloned().collect();
+    let outside: Vec<&PathBuf> = created.iter().filter(|p| !p.starts_with(&env.cwd)).collect();
+    if !outside.is_empty() {
+        let abs = c.name.starts_with('/') || c.path.as_deref().map(|p| p.starts_with('/')).unwrap_or(false);
+        let class = if abs { "absolute-path-followed" } else { "parent-components-followed" };
+        return Some((class, format!("{:?}: created outside the download directory: {:?}", c, outside.iter().map(|p| p.strip_prefix(&env.root).map(|r| r.display().to_string()).unwrap_or_else(|_| p.display().to_string())).collect::<Vec<_>>())));
+    }
+    // multi-file torrent with an ordinary one-component name: everything belongs under cwd/name
+    if c.path.is_some() && (c.name == "a" || c.name == "b") {
+        let sub = env.cwd.join(&c.name);
+        let stray: Vec<&PathBuf> = created.iter().filter(|p| !p.starts_with(&sub)).collect();
+        if !stray.is_empty() {
+            return Some((
+                "escapes-torrent-subdirectory",
+                format!("{:?}: created outside ./{}: {:?}", c, c.name, stray.iter().map(|p| p.strip_prefix(&env.cwd).unwrap().display().to_string()).collect::<Vec<_>>()),
+            ));
+        }
+    }
+    None
+}
+
+pub fn cases(thorough: bool, canary: &str) -> Vec<Case> {
+    let mut out = vec![];
+    for n in strings(3, canary) {
+        out.push(Case { name: n, path: None });
+    }
+    let names = strings(if thorough { 2 } else { 1 }, canary);
+    let paths = strings(3, canary);
+    for n in &names {
+        for p in &paths {
+            out.push(Case { name: n.clone(), path: Some(p.clone()) });
+        }
+    }
+    out
+}
+
+pub fn run(ctx: &Ctx) -> Outcome {
+    // the canary prefix differs per worker; cases carry a placeholder that is substituted there
+    let all = cases(ctx.tier == core::Tier::Thorough, "@CANARY@");
+    let res = core::par_map(
+        &all,
+        |w| {
+            core::set_quiet_panics(true);
+            env(&format!("w{}", w))
+        },
+        |env, _, c| {
+            let canary = env.canary.display().to_string();
+            let c2 = Case { name: c.name.replace("@CANARY@", &canary), path: c.path.as_ref().map(|p| p.replace("@CANARY@", &canary)) };
+            check_case(env, &c2)
+        },
+    );
+    let mut hostile = 0u64;
+    for (c, r) in all.iter().zip(res.iter()) {
+        let is_hostile = |s: &str| s.starts_with('/') || s.starts_with("@CANARY@") || s.split('/').any(|x| x == "..");
+        if is_hostile(&c.name) || c.path.as_deref().map(is_hostile).unwrap_or(false) {
+            hostile += 1;
+        }
+        if let Some((class, summary)) = r {
+            ctx.violation(class, summary.clone(), json!({"name": c.name, "path": c.path}));
+        }
+    }
+    let mut o = Outcome::new("exploration");
+    o.set("evaluations", json!(all.len()));
+    o.set("distinct_nontrivial", json!(hostile));
+    o.set("rule", json!(format!("strings = 1..=3 components from {:?} joined by '/', each also prefixed with an absolute canary directory; single-file torrents: every such name; multi-file torrents: every name of <= {} components x every such path for the first file; all (name, path) pairs distinct; non-trivial = a '..' component or an absolute path occurs", COMPONENTS, ctx.tier.pick(1, 2))));
+    let picks = ctx.seeded_pick(all.len(), 5);
+    o.set("samples", Value::Array(picks.iter().map(|i| json!({"name": all[*i].name, "path": all[*i].path})).collect()));
+    o.set("exhaustive", json!(true));
+    o.assume("the download directory sits 8 levels and the canary 6 levels below a disposable root, so every '..' chain of the alphabet (<= 6 relative, <= 5 after the canary prefix) stays inside the listed tree; absolute paths are represented by the canary prefix only (nothing is aimed at the real filesystem root); symlinks are not in the alphabet");
+    o
+}
+
+pub fn replay(_ctx: &Ctx, r: &Value) -> i32 {
+    let env = env("replay");
+    let canary = env.canary.display().to_string();
+    let c = Case {
+        name: r["name"].as_str().unwrap().replace("@CANARY@", &canary),
+        path: r["path"].as_str().map(|p| p.replace("@CANARY@", &canary)),
+    };
+    println!("case {:?} (download directory {})", c, env.cwd.display());
+    match check_case(&env, &c) {
+        Some((class, s)) => {
+            println!("VIOLATION property=C04 replay=<this file>\n  class={} {}", class, s);
+            1
+        }
+        None => {
+            println!("holds for this case");
+            0
+        }
+    }
+}
